@@ -125,6 +125,7 @@ class Sim:
         self.forced = forced
         self.depth = depth
         self.lossy = []          # (fn, block, callee): unmodelled calls that may have swallowed the forced value
+        self.visited = set()     # (function, block) of every block some explored path enters
         self.exit_codes = []     # (fired, value) for every process::exit reached
         self.states = 0
         self.tainted_by = tainted_by   # optional callable (fn, block, term) -> bool: does this call see the site's result?
@@ -419,6 +420,7 @@ class Sim:
         self.states = sub.states
         self.exit_codes += sub.exit_codes
         self.lossy += sub.lossy
+        self.visited |= sub.visited
 
     def _carries_site(self, vals):
         """does a value handed to an unmodelled function contain a closure that is / contains the site (or is watched)?"""
@@ -495,6 +497,7 @@ class Sim:
             blk = fn.blocks[b]
             if blk["cleanup"]:
                 continue
+            self.visited.add((fn.name, b))
             fr = Frame(fr.env)
             for st in blk["stmts"]:
                 if st[0] != "assign":
